@@ -79,7 +79,7 @@ def genVisCases (tier : String) (seed : Nat) (tagp : String) : Array Case := Id.
   pure out
 
 /-- texts that stress the JSON string escaping, one special character class per text -/
-def hostileVisTexts : Array String := #["plain", "back\\slash", "C:\\Users\\records", "trailing\\", "say \"hi\"", "tab\there", "line\nbreak",
+def hostileVisTexts : Array String := #["plain", "", " ", "back\\slash", "C:\\Users\\records", "trailing\\", "say \"hi\"", "tab\there", "line\nbreak",
   "cr\rx", "crlf\r\nx", "bell\x07x", "esc\x1b[0m", "del\x7fx", "sep\u2028x", "ünï çødé 字 😀", "<script>alert(1)</script>", "100% %s %d",
   "a/b", "'apostrophe", "mixed \\ \" \t"]
 
@@ -95,7 +95,7 @@ def genVisHostile (tier : String) (seed : Nat) (tagp : String) : Array Case := I
     let (t2, r2) := pickA hostileVisTexts r1
     let (t3, r3) := pickA hostileVisTexts r2
     let (an, r4) := pickA hostileVisAnn r3
-    let (shape, r5) := below 5 r4
+    let (shape, r5) := below 7 r4
     let (v, r6) := below 32 r5
     rng := r6
     let text :=
@@ -104,6 +104,8 @@ def genVisHostile (tier : String) (seed : Nat) (tagp : String) : Array Case := I
       | 1 => s!"A[{an}]({t1}) D(must) I({t2}) Cac[{an}]" ++ "{" ++ s!"A(b) I({t3})" ++ "}"
       | 2 => s!"A({t1}) " ++ "{" ++ s!"I({t2}) [XOR] I({t3})" ++ "}" ++ " Bdir(x)"
       | 3 => s!"A1({t1}) A1,p[{an}]({t2}) I({t3}) Bdir,p(p) Bdir(({t1} {t2} [OR] y) z)"
+      | 5 => s!"A(actor) I(review) Bdir({t1} (plans [AND] programs) {t2}) Cex((a [OR] b) {t3} (c [XOR] d))"
+      | 6 => s!"A(actor) D({t1}) I(act) Cac" ++ "{" ++ s!"A(other) D({t2}) I(acts)" ++ "}"
       | _ => s!"A({t1}) A,p" ++ "{" ++ s!"A({t2}) I({t3})" ++ "}" ++ s!" I(acts) Bdir1,p({t2}) Bdir1(o1) Bdir(o2)"
     let o := visOptsOfNat v
     out := out.push { id := s!"{tagp}-h{i}", op := "vis", args := visArgs text o, exp := Json.null, tag := "hostile",
